@@ -53,7 +53,7 @@ class Sem:
         if self.mode == "real":
             if v != v or v in (float("inf"), float("-inf")):
                 return z3.Const(f"lit_{v}", self.sort)
-            fr = Fraction(v)
+            fr = Fraction(repr(float(v)))  # the decimal value the literal spells (shortest round-trip), not its binary expansion
             return z3.RealVal(f"{fr.numerator}/{fr.denominator}") if fr.denominator != 1 else z3.RealVal(fr.numerator)
         if v == int(v) and -32768 <= v <= 32767:
             return z3.BitVecVal(int(v), 16)
@@ -101,9 +101,22 @@ class Sem:
         """Color BASIC truth value of a Bool: -1 / 0"""
         return z3.If(flag, self.num(-1.0), self.num(0.0))
 
+    int_conversion = None  # "trunc" / "round": how BASIC09 turns a REAL operand of LAND into an INTEGER (contracts only)
+
     def land(self, a, b):
         if self.mode == "bv":
             return a & b
+        if self.int_conversion in ("trunc", "round"):
+            half = z3.RealVal("1/2") if self.int_conversion == "round" else z3.RealVal(0)
+            # a mask 2^k - 1 (the only use in the library) is a remainder: keeps the query in integer arithmetic
+            for mask, other in ((a, b), (b, a)):
+                ms = z3.simplify(mask)
+                if z3.is_rational_value(ms) and ms.denominator_as_long() == 1:
+                    mv = ms.numerator_as_long()
+                    if mv > 0 and (mv & (mv + 1)) == 0:
+                        return z3.ToReal(z3.ToInt(other + half) % (mv + 1))
+            ia, ib = z3.ToInt(a + half), z3.ToInt(b + half)
+            return z3.ToReal(z3.BV2Int(z3.Int2BV(ia, 16) & z3.Int2BV(ib, 16)))
         return self.apply("BITAND", [a, b], "n")
 
     def lor(self, a, b):
@@ -432,7 +445,7 @@ class Machine:
             ident = a[1] if a[0] in ("var", "idx") else repr(a)
             extra = [self.num(st, x) for x in a[2]] if a[0] == "idx" else []
             return ("n", sem.apply("ADDR_" + ident.upper().replace("$", "_S"), extra, "n"))
-        if self.interp_strings and name in ("LEN", "MID$", "LEFT$", "RIGHT$", "FIX", "INT"):
+        if self.interp_strings and name in ("LEN", "MID$", "LEFT$", "RIGHT$", "FIX", "INT", "CHR$", "ASC"):
             return self.interpreted(st, name, args)
         sig = CB_SIG.get(name)
         if sig is None:
@@ -460,8 +473,23 @@ class Machine:
         toreal = lambda t: z3.ToReal(t)  # noqa: E731
         if name == "LEN":
             return ("n", toreal(z3.Length(self.string(st, args[0]))))
-        if name in ("FIX", "INT"):
+        if name == "FIX":
             return ("n", toreal(toint(self.num(st, args[0]))))
+        if name == "INT":
+            # BASIC09's INT drops the fraction (toward zero).  floor() by integer witnesses on the path condition: z3 decides
+            # such queries at once, while ToInt() terms send it into an unbounded search
+            x = self.num(st, args[0])
+            can_pos, can_neg = self.feasible(st, x >= 0)
+            if not can_neg:
+                return ("n", toreal(floor_witness(st.cond, x)))
+            if not can_pos:
+                return ("n", -toreal(floor_witness(st.cond, -x)))
+            kp, kn = floor_witness(st.cond, x), floor_witness(st.cond, -x)
+            return ("n", z3.If(x >= 0, toreal(kp), -toreal(kn)))
+        if name == "CHR$":
+            return ("s", z3.StrFromCode(toint(self.num(st, args[0]))))
+        if name == "ASC":
+            return ("n", toreal(z3.StrToCode(z3.SubString(self.string(st, args[0]), 0, 1))))
         sv = self.string(st, args[0])
         n = z3.Length(sv)
         if name == "MID$":
@@ -866,6 +894,18 @@ class Machine:
 
     def run_call(self, st, name, args):
         self.refmap.b09_run(self, st, name, args)
+
+
+_FLOOR_N = [0]
+
+
+def floor_witness(cond, x):
+    """fresh Int k with k <= x < k + 1 appended to `cond`; returns k"""
+    _FLOOR_N[0] += 1
+    k = z3.Int(f"floor!{_FLOOR_N[0]}")
+    cond.append(z3.ToReal(k) <= x)
+    cond.append(x < z3.ToReal(k) + 1)
+    return k
 
 
 def initial_state():
